@@ -267,6 +267,7 @@ def step (s : Store) (j : Json) : Store × Json :=
     | some s' => (s', ok Json.null)
     | none => (s, err "bad-args")
   | .arr #[.str "dump"] => (s, ok (dump s))
+  | .arr #[.str "inv"] => (s, ok (Json.bool s.invB))
   | .arr #[.str "serialize", g, .str f] =>
     match valOfJson g with
     | none => (s, err "bad-args")
